@@ -33,8 +33,9 @@ Float steps of the Python and how they are treated:
   correctly rounded `int / int`; equals the exact floor while
   `start_time · ts < 2⁵³` and is modelled exactly (`Nat` division).
 Not modelled: `if options.segmentTimeline: self.periods[-1].duration = None`
-(manifest_context.py:241-242; `timeline=1` is outside the proved region, see the
-ledger), everything `create_period` puts *inside* a Period (adaptation sets, URLs).
+(the last live Period is written without `@duration`; its SegmentTimeline is built
+from the duration before that), everything else `create_period` puts *inside* a Period
+(adaptation sets, URLs).
 -/
 namespace DashLive.Periods
 open DashLive.Segments
@@ -57,6 +58,15 @@ def durations (ps : List PeriodDef) : List Nat := ps.map (·.dur)
 
 /-- `MultiPeriodStream.total_duration` -/
 def totalDuration (ps : List PeriodDef) : Nat := (durations ps).sum
+
+/-- `Period.presentation_duration` (models/period.py, fix 983f9d5): the stored duration
+rounded (half up) to a whole number of milliseconds – the resolution of `xs:duration`
+values in the manifest.  `create_period` and `total_duration` use this value. -/
+def quantise (us : Nat) : Nat := (us + 500) / 1000 * 1000
+
+/-- the definitions as the period builders see them -/
+def presented (ps : List PeriodDef) : List PeriodDef :=
+  ps.map fun p => { p with dur := quantise p.dur }
 
 /-! ### `create_all_vod_periods` -/
 
@@ -131,28 +141,26 @@ inductive MpsRes
   | notFound
   deriving Repr, DecidableEq
 
-/-- media_requests.py:554-612, including the `fix:` commits 9437abb (a search that wrapped
+/-- media_requests.py:563-608, including the `fix:` commits 9437abb (a search that wrapped
 into the next loop of the media – `origin_time > 0` – is refused), 7f6dd57 (a number below
-`start_number` is refused) and 3d7a0df (a `$Time$` request gets the number
-`start_number + mod_seg − first_seg`, where `first_seg` is the segment the Period starts
-with, and is refused when it lies before that segment).  `startTc` is the period's source
-offset in the track's timescale, `R` the reference duration in that timescale. -/
+`start_number` is refused), 3d7a0df and 488ab59 (`$Time$` counts from the start of the first
+segment of the Period: the segment is looked up at `first_start + t`, its number is
+`start_number + mod_seg − first_seg`, and decode times of `$Number$` and `$Time$` requests
+both count from `first_start`).  `startTc` is the period's source offset in the track's
+timescale (`Period.start_timecode`), `R` the reference duration in that timescale. -/
 def mpsIndex (durs : List Nat) (R sn startTc : Nat) (rq : Req) : MpsRes :=
-  let tc := match rq with
-    | .time t => startTc + t
-    | .number _ => startTc
-  let r := getSegmentIndex durs R tc
-  if r.2.2 > 0 then .notFound
+  let r0 := getSegmentIndex durs R startTc
+  if r0.2.2 > 0 then .notFound
   else match rq with
     | .time t =>
-      let first := (getSegmentIndex durs R startTc).1
-      if r.1 < first then .notFound
-      else .ok r.1 (-(r.2.1 : Int) + t) ((sn : Int) + r.1 - first)
+      let r := getSegmentIndex durs R (r0.2.1 + t)
+      if r.2.2 > 0 then .notFound
+      else .ok r.1 (-(r0.2.1 : Int)) ((sn : Int) + r.1 - r0.1)
     | .number num =>
       if num < sn then .notFound
       else
-        let m : Int := (r.1 : Int) + (num - sn)
-        if m > durs.length then .notFound else .ok m (-(r.2.1 : Int)) num
+        let m : Int := (r0.1 : Int) + (num - sn)
+        if m > durs.length then .notFound else .ok m (-(r0.2.1 : Int)) num
 
 /-- what the client receives -/
 inductive Served
@@ -184,5 +192,29 @@ def mpsServe (durs : List Nat) (stored : Option (Nat → Nat)) : MpsRes → Serv
 /-- a complete `$Number$` / `$Time$` media request of a period -/
 def mpsRequest (durs : List Nat) (stored : Option (Nat → Nat)) (R sn startTc : Nat) (rq : Req) : Served :=
   mpsServe durs stored (mpsIndex durs R sn startTc rq)
+
+/-! ### the SegmentTimeline of a Period: `Representation.generate_period_timeline` -/
+
+/-- the `while` loop of `generate_period_timeline` (representation.py:448-483, fix 488ab59);
+`m` = `mod_segment − 1`, `lim` = `usecs · timescale`, `cur` the node being filled -/
+def ptLoop (durs : List Nat) (lim : Nat) : Nat → Nat → Nat → SNode → List SNode → List SNode
+  | 0, _, _, cur, acc => outputNode acc cur
+  | fuel+1, m, pos, cur, acc =>
+    if m < durs.length ∧ pos * 1000000 < lim then
+      let d : Int := (durAt durs m : Int)
+      let (cur', acc') :=
+        if cur.dur.isNone then ({ cur with start := some (pos : Int) }, acc)
+        else if some d ≠ cur.dur then (SNode.fresh, outputNode acc cur)
+        else (cur, acc)
+      ptLoop durs lim fuel (m + 1) (pos + durAt durs m) { cur' with dur := some d, count := cur'.count + 1 } acc'
+    else outputNode acc cur
+
+/-- `generate_period_timeline(start_timecode, duration)`: the `<S>` list of a Period that
+plays this track from source offset `startTc` for `durUs` µs (the Period's presentation
+duration); empty when the offset is past the media -/
+def periodTimeline (durs : List Nat) (R ts startTc durUs : Nat) : List SNode :=
+  let r := getSegmentIndex durs R startTc
+  if r.2.2 > 0 then []
+  else ptLoop durs (durUs * ts) (durs.length + 1) (r.1 - 1) 0 SNode.fresh []
 
 end DashLive.Periods
